@@ -67,6 +67,10 @@ pub fn drive(args: &[String]) {
                                                             card("While", vec![read("c"), block(vec![])]),
                                                             repeat("i", int(2), block(vec![])),
                                                             setg("t", int(9))])], natives: vec![], imports: vec![] }),
+            // a global whose first mention is inside the value of the first assignment of another global
+            ("global-first-mentioned-in-a-value", P { fns: vec![f("main", vec![call("init", vec![]), setg("result", card("Add", vec![read("base"), int(1)])),
+                                                                              setg("third", card("Add", vec![read("other"), read("result")]))]),
+                                                                f("init", vec![setg("base", int(41)), setg("other", int(1))])], natives: vec![], imports: vec![] }),
             ("dotted-set-first", P { fns: vec![f("main", vec![setv("opts.size.x", int(1)), setg("opts", card("CreateTable", vec![]))])], natives: vec![], imports: vec![] }),
         ];
         for (name, p) in probes {
